@@ -214,6 +214,64 @@ struct Mixed {
             ctx.probe("reader-open-while-upgraded");
             return true;
         }
+        if (k == "hmaxref") { // the largest reference number there is gets used: from now on Hnewref has to search for a free one
+            if (!need_h())
+                return true;
+            auto key = std::make_pair(8600, 65535);
+            if (hlen.count(key))
+                return false;
+            int64_t              len = std::max<int64_t>(1, o.arg(0));
+            std::vector<uint8_t> d   = data_block((uint64_t)o.arg(1), (size_t)len);
+            if (!MX("Hputelement", Hputelement(fid, 8600, 65535, d.data(), (int32)len) != (int32)len))
+                hlen[key] = len;
+            ctx.probe("largest-ref-in-use");
+            return true;
+        }
+        if (k == "hnewput") { // a new element under the reference number the library hands out
+            if (!need_h())
+                return true;
+            uint16 tag = htag(o.arg(0)), ref = Hnewref(fid);
+            if (MX("Hnewref", ref == 0))
+                return true;
+            ctx.tr((uint64_t)ref);
+            int64_t              len = std::max<int64_t>(1, o.arg(1));
+            std::vector<uint8_t> d   = data_block((uint64_t)o.arg(2), (size_t)len);
+            if (!MX("Hputelement", Hputelement(fid, tag, ref, d.data(), (int32)len) != (int32)len))
+                hlen[{(int)tag, (int)ref}] = len;
+            if (hlen.count({8600, 65535}))
+                ctx.probe("new-ref-searched-for");
+            return true;
+        }
+        if (k == "hreadnew") { // the elements of the two ops above, found without bookkeeping
+            if (!need_h())
+                return true;
+            std::vector<std::pair<uint16, uint16>> found;
+            for (int t = 0; t < 4; t++) {
+                uint16 want = t < 3 ? htag(t) : (uint16)8600, ft = 0, fr = 0;
+                int32  off = 0, len = 0;
+                while (Hfind(fid, want, DFREF_WILDCARD, &ft, &fr, &off, &len, DF_FORWARD) != FAIL)
+                    if (fr > 8)
+                        found.push_back({ft, fr});
+            }
+            std::sort(found.begin(), found.end());
+            if (found.empty())
+                absent = true;
+            for (auto &e : found) {
+                int32 len = Hlength(fid, e.first, e.second);
+                ctx.tr((uint64_t)e.first * 65536 + e.second);
+                ctx.tr((uint64_t)len);
+                if (MX("Hlength", len == FAIL))
+                    return true;
+                std::vector<uint8_t> buf((size_t)len + 8);
+                int32                n = Hgetelement(fid, e.first, e.second, buf.data());
+                ctx.tr((uint64_t)n);
+                MX("Hgetelement", n == FAIL && len > 0);
+                if (n > 0)
+                    ctx.trb(buf.data(), (size_t)n);
+                ctx.st.checks++;
+            }
+            return true;
+        }
         if (k == "hext") { // element stored in an external file
             if (!need_h())
                 return true;
@@ -247,6 +305,10 @@ struct Mixed {
                 return true;
             bool   lk  = o.arg(0) != 0;
             uint16 tag = (uint16)(htag(o.arg(1)) + (o.arg(0) == 3 ? 300 : o.arg(0) == 2 ? 200 : lk ? 100 : 0)), ref = href(o.arg(2));
+            if (o.arg(0) == 4) { // the element of hmaxref
+                tag = 8600;
+                ref = 65535;
+            }
             auto   key = std::make_pair((int)tag, (int)ref);
             if (k == "hput") {
                 int64_t len = std::max<int64_t>(1, o.arg(3));
@@ -880,6 +942,11 @@ struct MixedGen {
         int64_t ds = (int64_t)(r.next() >> 16);
         switch (family) {
             case 0: { // H
+                if (r.chance(0.12)) {
+                    if (r.chance(0.35))
+                        return mkop(0, "hmaxref", {1 + r.sizeish(maxlen), ds});
+                    return mkop(0, "hnewput", {(int64_t)r.below(3), 1 + r.sizeish(maxlen), ds});
+                }
                 int k = fresh ? (int)r.below(2) : (int)r.below(4);
                 int64_t lk = k == 1 ? 1 : (int64_t)r.below(2);
                 if (k == 0)
@@ -927,6 +994,7 @@ struct MixedGen {
             for (int t = 0; t < 3; t++)
                 for (int r = 0; r < 8; r++)
                     ops.push_back(mkop(0, "hread", {lk, t, r}));
+        ops.push_back(mkop(0, "hread", {4, 0, 0})); // the element under the largest reference number
         for (int i = 0; i < 6; i++)
             ops.push_back(mkop(0, "vsread", {i}));
         for (int i = 0; i < 6; i++)
